@@ -54,7 +54,7 @@ func mLock(x *Exec, cfg *Config, f *Frame, args []Val, pos token.Pos) (Val, []*C
 	held := x.heldArr(cfg.st)
 	x.oblige(cfg, "lock-not-held", x.lockName(m), Not(Select(held, m)), nil, pos)
 	cfg.st.assume(Not(Select(held, m)))
-	x.acquire(cfg, m, pos)
+	x.acquire(cfg, args[0], pos)
 	cfg.st.heap["$held"] = Store(x.heldArr(cfg.st), m, True)
 	return TupV{}, nil
 }
@@ -65,7 +65,7 @@ func mUnlock(x *Exec, cfg *Config, f *Frame, args []Val, pos token.Pos) (Val, []
 	held := x.heldArr(cfg.st)
 	x.oblige(cfg, "unlock-held", x.lockName(m), Select(held, m), nil, pos)
 	cfg.st.assume(Select(held, m))
-	x.release(cfg, m, pos)
+	x.release(cfg, args[0], pos)
 	cfg.st.heap["$held"] = Store(x.heldArr(cfg.st), m, False)
 	return TupV{}, nil
 }
@@ -73,7 +73,7 @@ func mUnlock(x *Exec, cfg *Config, f *Frame, args []Val, pos token.Pos) (Val, []
 func mRLock(x *Exec, cfg *Config, f *Frame, args []Val, pos token.Pos) (Val, []*Config) {
 	m := x.tv(args[0])
 	rh := x.heapGet(cfg.st, "$rheld", SArr(SInt, SBool))
-	x.acquire(cfg, m, pos)
+	x.acquire(cfg, args[0], pos)
 	cfg.st.heap["$rheld"] = Store(rh, m, True)
 	return TupV{}, nil
 }
@@ -107,21 +107,21 @@ func mNewCond(x *Exec, cfg *Config, f *Frame, args []Val, pos token.Pos) (Val, [
 func mSignal(x *Exec, cfg *Config, f *Frame, args []Val, pos token.Pos) (Val, []*Config) {
 	c := x.tv(args[0])
 	x.nilcheck(cfg, c, "cond", pos)
-	x.condNotify(cfg, c, false, pos)
+	x.condNotify(cfg, args[0], false, pos)
 	return TupV{}, nil
 }
 
 func mBroadcast(x *Exec, cfg *Config, f *Frame, args []Val, pos token.Pos) (Val, []*Config) {
 	c := x.tv(args[0])
 	x.nilcheck(cfg, c, "cond", pos)
-	x.condNotify(cfg, c, true, pos)
+	x.condNotify(cfg, args[0], true, pos)
 	return TupV{}, nil
 }
 
 func mCondWait(x *Exec, cfg *Config, f *Frame, args []Val, pos token.Pos) (Val, []*Config) {
 	c := x.tv(args[0])
 	x.nilcheck(cfg, c, "cond", pos)
-	x.condWait(cfg, c, pos)
+	x.condWait(cfg, args[0], pos)
 	return TupV{}, nil
 }
 
@@ -141,7 +141,15 @@ func mErrorf(x *Exec, cfg *Config, f *Frame, args []Val, pos token.Pos) (Val, []
 	return TV{T: r}, nil
 }
 
-func (x *Exec) ctxDoneFn() func(...Term) Term { return x.d.Fun("ctx.done", []Sort{SInt, SInt}, SBool) }
+func (x *Exec) ctxDoneFn() func(...Term) Term {
+	f := x.d.Fun("ctx.done", []Sort{SInt, SInt}, SBool)
+	parentOf := x.d.Fun("ctx.parent", []Sort{SInt}, SInt)
+	c, e1, e2 := Term{"c", SInt}, Term{"e1", SInt}, Term{"e2", SInt}
+	// cancellation is monotone in time and inherited from the parent context
+	x.d.Axiom(Forall([]Term{c, e1, e2}, Implies(And(f(c, e1), Le(e1, e2)), f(c, e2)), []Term{f(c, e1), f(c, e2)}))
+	x.d.Axiom(Forall([]Term{c, e1}, Implies(f(parentOf(c), e1), f(c, e1)), []Term{f(parentOf(c), e1)}, []Term{f(c, e1)}))
+	return f
+}
 
 // ctxEpoch advances whenever other goroutines / time may have made progress.
 func (x *Exec) ctxEpoch(st *State) Term { return x.heapGet(st, "$epoch", SInt) }
@@ -154,16 +162,39 @@ func mWithCancel(x *Exec, cfg *Config, f *Frame, args []Val, pos token.Pos) (Val
 	cfg.st.assume(Eq(parentOf(child), parent))
 	cancelOf := x.d.Fun("ctx.cancelfn", []Sort{SInt}, SInt)
 	cfg.st.assume(Eq(cancelOf(cancel), child))
+	if cfg.st.ctxs == nil {
+		cfg.st.ctxs = map[string]*ctxInfo{}
+	}
+	cfg.st.ctxs[child.S] = &ctxInfo{parent: parent, cancelFn: cancel}
 	return TupV{TV{T: child}, TV{T: cancel}}, nil
 }
 
 func mCtxErr(x *Exec, cfg *Config, f *Frame, args []Val, pos token.Pos) (Val, []*Config) {
 	ctx := x.tv(args[0])
 	x.nilcheck(cfg, ctx, "ctx", pos)
-	done := x.ctxDoneFn()(ctx, x.ctxEpoch(cfg.st))
+	done := x.doneNow(cfg.st, ctx)
 	e := x.d.Fresh("ctxerr", SInt)
 	cfg.st.assume(Eq(Neq(e, IntLit(0)), done))
+	// the Context contract: Err is nil, Canceled or DeadlineExceeded
+	canc := x.d.Const("glob!context.Canceled", SInt)
+	dl := x.d.Const("glob!context.DeadlineExceeded", SInt)
+	x.d.Axiom(Lt(canc, IntLit(0)))
+	x.d.Axiom(Lt(dl, IntLit(0)))
+	cfg.st.assume(Or(Eq(e, IntLit(0)), Eq(e, canc), Eq(e, dl)))
 	return TV{T: e}, nil
+}
+
+// doneNow: is the context done at the current moment? A context derived by
+// WithCancel on this path is done iff its parent is, until its cancel
+// function is called (nobody else holds the cancel function).
+func (x *Exec) doneNow(st *State, ctx Term) Term {
+	if ci, ok := st.ctxs[ctx.S]; ok {
+		if ci.cancelled {
+			return True
+		}
+		return x.doneNow(st, ci.parent)
+	}
+	return x.ctxDoneFn()(ctx, x.ctxEpoch(st))
 }
 
 func mCtxDone(x *Exec, cfg *Config, f *Frame, args []Val, pos token.Pos) (Val, []*Config) {
